@@ -189,12 +189,12 @@ def jobs(tier):
     if tier == "quick":
         plan = [([2], 3), ([3], 4), ([2, 2], 4), ([3, 2], 4), ([3, 3], 4), ([4], 4), ([2], 5), ([3], 5)]
     else:
-        plan = [([2], 6), ([3], 6), ([4], 6), ([2, 2], 6), ([3, 2], 5), ([3, 3], 5), ([4, 3], 5), ([2, 2, 2], 5),
+        plan = [([2], 6), ([3], 6), ([4], 6), ([2, 2], 6), ([3, 2], 5), ([3, 3], 5), ([4, 3], 5), ([2, 2, 2], 4),
                 ([3, 2, 2], 4), ([4, 4], 5), ([5], 6), ([7], 5)]
     for frags, events in plan:
         out.append(Job("symbolic-delivery-schedule", h_schedule, dict(frags=frags, events=events, body=2),
                        cost=len(frags) * events ** 2, shards=(1 if tier == "quick" or events < 5 else 8)))
-    for frags, events in (([2], 3), ([3], 3), ([2, 2], 3)) if tier == "quick" else (([2], 4), ([3], 5), ([2, 2], 5), ([3, 2], 4), ([4], 5)):
+    for frags, events in (([2], 3), ([3], 3), ([2, 2], 3)) if tier == "quick" else (([2], 4), ([3], 5), ([2, 2], 4), ([3, 2], 4), ([4], 4)):
         out.append(Job("symbolic-delivery-schedule-through-update", h_schedule, dict(frags=frags, events=events, body=2, via="update"),
                        cost=4 * len(frags) * events ** 2, shards=4))
     for nl, ns in ((49, 5), (72, 24), (30, 0)) if tier == "quick" else ((49, 5), (72, 24), (30, 0), (144, 1), (100, 10), (25, 24)):
